@@ -801,22 +801,7 @@ func (fv *FV) indexTerm(st *State, a, i Term) Term {
 		if i.Sort != sInt {
 			fv.sfail("slice index must be an int")
 		}
-		ix := i.S
-		if strings.ContainsAny(ix, " (") && !containsQ(ix) && !i.Lit {
-			// a compound ground index gets a name: E-matching is syntactic, and `(+ off (- len 1))` is flattened by
-			// the solvers into a ternary sum that no pattern `(+ off k)` matches
-			if fv.ixNames == nil {
-				fv.ixNames = map[string]string{}
-			}
-			nm, ok := fv.ixNames[ix]
-			if !ok {
-				nm = fv.fresh("ix", sInt)
-				fv.ixNames[ix] = nm
-				fv.axioms = append(fv.axioms, and(app("<=", nm, ix), app(">=", nm, ix))) // two inequalities: an equation would be substituted away by the solver's preprocessing
-			}
-			ix = nm
-		}
-		return Term{S: sel(sel(fv.heapGet(st, key), "(sbase "+a.S+")"), app("+", "(soff "+a.S+")", ix)), Sort: fv.sortOf(et), T: et}
+		return Term{S: sel(sel(fv.heapGet(st, key), "(sbase "+a.S+")"), elemAddr(a.S, i.S)), Sort: fv.sortOf(et), T: et}
 	case a.Sort == sStr:
 		return Term{S: fmt.Sprintf("(strdata (strbase %s) (+ (stroff %s) %s))", a.S, a.S, i.S), Sort: sBV8, T: types.Typ[types.Uint8]}
 	case strings.HasPrefix(a.Sort, "(Array "):
@@ -1286,13 +1271,22 @@ func (fv *FV) specCall(env *Env, c *SCall) Term {
 		sl := fv.spec(&on, c.Args[0])
 		ix := fv.spec(env, c.Args[1])
 		return fv.indexTerm(env.old, sl, ix)
+	case "addr":
+		// addr(s, k): the position of s[k] in the backing array of s, in the shape element reads have (at$, fv.go)
+		need(2)
+		s := fv.spec(env, c.Args[0])
+		k := fv.spec(env, c.Args[1])
+		if s.Sort != sSlice || k.Sort != sInt {
+			fv.sfail("addr(slice, int)")
+		}
+		return Term{S: elemAddr(s.S, k.S), Sort: sInt}
 	case "backing":
 		need(2)
 		s := fv.spec(env, c.Args[0])
 		k := fv.spec(env, c.Args[1])
 		if s.Sort == sSlice && !strings.Contains(k.S, "?") && !strings.Contains(s.S, "?") {
 			fv.omarkDecl()
-			fv.axioms = append(fv.axioms, app("omark", app("+", "(soff "+s.S+")", k.S)))
+			fv.axioms = append(fv.axioms, app("omark", elemAddr(s.S, k.S)))
 		}
 		return fv.indexTerm(env.st, s, k)
 	case "bag":
@@ -1516,7 +1510,16 @@ func (fv *FV) quantPatterns(e2 *Env, q *SQuant) string {
 		}
 		var ts []string
 		for _, t := range tr {
-			ts = append(ts, fv.spec(e2, t).S)
+			tt := fv.spec(e2, t)
+			ts = append(ts, tt.S)
+			// remembered for skolemizeGoal: when this quantifier is a goal, its trigger terms at the skolem constants
+			// are kept alive in the query, so that hypotheses with the same triggers fire there
+			if fv.trigSorts == nil {
+				fv.trigSorts = map[string]string{}
+			}
+			if n, ok := parseSx(tt.S); ok {
+				fv.trigSorts[n.String()] = tt.Sort
+			}
 		}
 		pats = append(pats, ":pattern ("+strings.Join(ts, " ")+")")
 	}
@@ -1564,8 +1567,8 @@ func (fv *FV) unchanged(env *Env, a SExpr) string {
 		et := elemType(s.T)
 		key, _ := fv.elemComp(et)
 		k := fmt.Sprintf("k?u%d", env.qdepth+1)
-		now := sel(sel(fv.heapGet(env.st, key), "(sbase "+s.S+")"), app("+", "(soff "+s.S+")", k))
-		was := sel(sel(fv.heapGet(env.old, key), "(sbase "+s.S+")"), app("+", "(soff "+s.S+")", k))
+		now := sel(sel(fv.heapGet(env.st, key), "(sbase "+s.S+")"), elemAddr(s.S, k))
+		was := sel(sel(fv.heapGet(env.old, key), "(sbase "+s.S+")"), elemAddr(s.S, k))
 		return fmt.Sprintf("(forall ((%s Int)) (! (=> (and (<= 0 %s) (< %s (slen %s))) (= %s %s)) :pattern (%s)))", k, k, k, s.S, now, was, now)
 	}
 	now := fv.spec(env, a)
